@@ -83,7 +83,12 @@ def setup(c, external=(), free=(), reduced=False):
         return ann
 
     def visit_hole(node):
-        """Induction hypothesis: visit(hole) is the marker of the visited hole (None: not a hole)."""
+        """Induction hypothesis: visit(hole) is the marker of the visited hole (None: not a hole).  Visiting a sub-term that was already
+        visited instruments it a second time (every event inside it doubled): its marker becomes the double-visit marker __VV..."""
+        if isinstance(node, ast.Name) and node.id.startswith("__VE"):
+            return ast.copy_location(ast.Name(id="__VVE" + node.id[4:], ctx=ast.Load()), node)
+        if isinstance(node, ast.Expr) and isinstance(node.value, ast.Name) and node.value.id.startswith("__VS"):
+            return ast.copy_location(ast.Expr(ast.copy_location(ast.Name(id="__VVS" + node.value.id[4:], ctx=ast.Load()), node)), node)
         if isinstance(node, ast.Name) and node.id.startswith("__E"):
             return ast.copy_location(ast.Name(id="__VE" + node.id[3:], ctx=ast.Load()), node)
         if isinstance(node, ast.Expr) and isinstance(node.value, ast.Name) and node.value.id.startswith("__S"):
@@ -238,6 +243,10 @@ def check_schema(c, it, tr, decisions, src, expected_events, label, method="visi
     kinds = sorted({p.rule for p in problems})
     for k in kinds:
         c.prove(f"{label}/{k}", False, note="; ".join(p.what for p in problems if p.rule == k), only=["C01"])
+    # C02 / C06: a sub-term that is visited twice is instrumented twice -- every binding, return, yield and loop inside it would deliver
+    # its event twice
+    twice = sorted({x.id for o in outs for x in ast.walk(o) if isinstance(x, ast.Name) and x.id.startswith("__VV")})
+    c.prove(f"{label}/no-sub-term-visited-twice", not twice, note=str(twice), only=["C02", "C06", "C01"])
     # C02 / C06: events
     evs = PE.events(outs)
     got = [e.sig() for e in evs]
@@ -325,6 +334,11 @@ ASSIGN_SCHEMAS = [
     ("subscript-const-index", "o[0] = __E1", [("o", ("index", "0"), None, "__VE1", True)]),
     ("subscript-index-expression", "o[__E2()] = __E1", [("o", ("index", "_ptera__1"), None, "_ptera__0", True)]),
     ("subscript-name-index", "o[k] = __E1", [("o", ("index", "k"), None, "__VE1", True)]),
+    # an index that is neither a constant nor a plain name may have effects even without a call in it (a walrus, a property read,
+    # an operator method): it is evaluated once, after the value
+    ("subscript-index-binop", "o[__E2 + 1] = __E1", [("o", ("index", "_ptera__1"), None, "_ptera__0", True)]),
+    ("subscript-index-walrus", "o[(k := __E2)] = __E1", [("o", ("index", "_ptera__1"), None, "_ptera__0", True)]),
+    ("subscript-index-attribute", "o[__E2.slot] = __E1", [("o", ("index", "_ptera__1"), None, "_ptera__0", True)]),
     ("deep-attribute", "o.a.b = __E1", []),
     ("call-attribute", "f().attr = __E1", []),
     ("chained", "x = y = __E1", [("x", None, None, "_ptera__0", True), ("y", None, None, "_ptera__0", True)]),
@@ -616,7 +630,7 @@ PASS_SCHEMAS = [
 ]
 
 
-@unit("pass-through", ["C01", "C02"], VISITORS + [AST + ":NodeTransformer.generic_visit", AST + ":NodeVisitor.visit"], replay=_replay_native("pass-through"))
+@unit("pass-through", ["C01", "C02", "C06"], VISITORS + [AST + ":NodeTransformer.generic_visit", AST + ":NodeVisitor.visit"], replay=_replay_native("pass-through"))
 def u_passthrough(c):
     """Statement forms without a dedicated rule go through NodeTransformer.generic_visit (interpreted from the stdlib source):
     while / if / with / nested def / class / global / nonlocal / expression / del / raise / assert / lambda / comprehension."""
